@@ -6,6 +6,7 @@
 //   single <scenario> <k> <sel>            the k-th call of round 1 fails (errno = plausible list of that call [sel])
 //   pair   <scenario> <k1> <k2> <s1> <s2>  two positions of the two-round trace fail
 //   replay <scenario> <pos:errno,...>      explicit
+//   probe  <scenario> <kmax>               checks that round 1 has at most kmax calls (exhaustiveness of `single`)
 // and runs in a forked child (abort / sanitizer report / signal = outcome "crash").  A scenario is
 // setup (quiet: not counted, not faulted), a few *steps* (one API call each, faultable, outcome observed),
 // teardown (quiet).  It is run for two rounds in the same process: with a single fault in round 1, round 2 is
@@ -35,7 +36,14 @@ using namespace sockpuppet;
 
 namespace raw { // harness-side peers: raw system calls, invisible to the shim
 int socket(int type) { return static_cast<int>(::syscall(SYS_socket, AF_INET, type, 0)); }
-void close(int fd) { if(fd >= 0) ::syscall(SYS_close, fd); }
+// closes with an RST (no TIME_WAIT sockets pile up over thousands of runs); harmless for datagram sockets
+void close(int fd)
+{
+  if(fd < 0) return;
+  linger lg{1, 0};
+  ::syscall(SYS_setsockopt, fd, SOL_SOCKET, SO_LINGER, &lg, sizeof(lg));
+  ::syscall(SYS_close, fd);
+}
 uint16_t bindAny(int fd)
 {
   sockaddr_in a{};
@@ -231,7 +239,14 @@ struct RawListener
   int fd = -1;
   uint16_t port = 0;
   std::vector<int> accepted;
-  RawListener() { fd = raw::socket(SOCK_STREAM); port = raw::bindAny(fd); raw::listen(fd); }
+  RawListener()
+  {
+    fd = raw::socket(SOCK_STREAM);
+    int one = 1;
+    ::syscall(SYS_setsockopt, fd, SOL_SOCKET, SO_REUSEADDR, &one, sizeof(one));
+    port = raw::bindAny(fd);
+    raw::listen(fd);
+  }
   ~RawListener() { for(int a : accepted) raw::close(a); raw::close(fd); }
   Address addr() const { return Address("127.0.0.1:" + std::to_string(port)); }
   int acceptOne()
@@ -621,7 +636,7 @@ void child(std::vector<std::string> const &w)
   };
 
   std::map<long, int> armed;
-  if(w[0] == "single" || w[0] == "pair") {
+  if(w[0] == "single" || w[0] == "pair" || w[0] == "probe") {
     // discovery: the fault-free trace of both rounds
     Run d0;
     d0.print = false;
@@ -635,7 +650,12 @@ void child(std::vector<std::string> const &w)
       auto const &l = errnosFor(d0.names[static_cast<size_t>(k)]);
       armed[k] = l[static_cast<size_t>(sel) % l.size()];
     };
-    if(w[0] == "single" && w.size() == 4) {
+    if(w[0] == "probe" && w.size() == 3) {
+      // is round 1 of this scenario covered by the positions 0..k-1 the generator enumerates?
+      if(static_cast<long>(len1) > std::stol(w[2])) har::obs("toolong len=" + std::to_string(len1));
+      else har::obs("plan none len=" + std::to_string(len1));
+      return;
+    } else if(w[0] == "single" && w.size() == 4) {
       long k = std::stol(w[2]);
       if(k >= static_cast<long>(len1)) { har::obs("plan none len=" + std::to_string(len1)); return; }
       pick(k, std::stol(w[3]));
